@@ -116,9 +116,10 @@ class Registry:
             self._round = getattr(self, '_round', 0) + 1
             live = [(ref(), birth, serial) for ref, birth, serial in self.items]
             live = [t for t in live if t[0] is not None]
-            probe = getattr(self, 'pair_probe', None)
-            if probe is not None and len(live) > 1:
-                key, fn = probe
+            probes = getattr(self, 'pair_probe', None)
+            if probes is not None and not isinstance(probes, list):
+                probes = [probes]
+            for key, fn in (probes if len(live) > 1 else None) or []:
                 sub = live[-6:] + live[:2] if len(live) > 8 else live
                 flagged = set()
                 for oy, _, sy in sub:
